@@ -313,6 +313,58 @@ def life_mechanism(v, files, work, tag):
         log(f"model drift: life-cycle timelines that are not behaviours of Lifecycle.tla step by step (not an alarm): {drift[0]}")
 
 
+def at_quiescence(v, prop, tier, tag):
+    """The sequential property `prop` (C02, C12, C19) after CONCURRENT runs, at quiescence: threads of sets, gets and deletes
+    and a merging thread run the stress windows of C04, every thread is joined, and then the counters are compared with an
+    independent scan of the files (C19), a restart must read what the store read (C02), with and without hint files (C12)
+    - TraceSys: <prop>_AtQuiescence.  A defect of the interleavings shows in the sequential properties only here."""
+    rnd = random.Random(seed() * 977 + 3)
+    items = []
+    for i in range(10 if tier == "quick" else 80):
+        items.append({"kind": "stress", "threads": rnd.choice([2, 3, 4]), "ops": rnd.choice([6, 8]), "keys": rnd.choice([1, 2, 3]),
+                      "windows": 4, "pool": rnd.choice([1, 2, 4]), "cache": rnd.choice([0, 1, 2, 256]),
+                      "max_file": rnd.choice([0, 200, 30000]), "delay_us": rnd.choice([100, 400, 1500]), "merger": True, "clock": False})
+    work = os.path.join(OUT, "work", tag + "-q")
+    os.makedirs(work, exist_ok=True)
+    ifile = os.path.join(work, "inputs.jsonl")
+    with open(ifile, "w") as f:
+        for x in items:
+            f.write(json.dumps(x) + "\n")
+    pre = os.path.join(work, "conc")
+    files, sums, aborts = run_shards("sysdrive", ["conc", ifile, pre, "--seed", str(seed())], pre, min(8, NCPU, len(items)), synth=synth_abort)
+    cfg = write_cfg(f"tracesys_q_{tag}.cfg", TRACE_CFG.format(invs=f"{prop}_AtQuiescence"))
+    n = 0
+    for f in files:
+        evs = read_ndjson(f)
+        a = [e for e in evs[1:] if e.get("ev") != "lin"]
+        if not a:
+            continue
+        p = f.replace(".ndjson", ".sys.ndjson")
+        open(p, "w").write("\n".join(json.dumps(x) for x in [evs[0]] + a) + "\n")
+        r = tlc("TraceSys.tla", cfg, workers=1, env={"TRACE": p, "JAVA_TOOL_OPTIONS": JAVA_OPTS_TRACE}, timeout=1200, xmx="3g",
+                metatag=f"trq-{prop}-{os.path.basename(p)}-{os.getpid()}")
+        v.cov["transitions"] += r.generated
+        v.cov["states"] += r.distinct
+        n += len(a)
+        if r.ok:
+            continue
+        if not r.violated:
+            raise ToolError(f"trace validation of {p} failed in the tooling: {r.out[-3000:]}")
+        if len(v.violations) >= 5:
+            continue
+        st = r.alias_state()
+        m = re.search(r"\bline = (\d+)", st)
+        line = int(m.group(1)) if m else 0
+        m = re.search(r'\bwhy = "([^"]*)"', st)
+        why = m.group(1) if m else r.violated
+        payload = {"property": prop, "invariant": r.violated, "why": why, "trace_file": p, "line": line, "seed": seed(),
+                   "scenario": a[line - 2] if 2 <= line <= len(a) + 1 else {}}
+        v.violation(f"{why} [line {line} of {os.path.basename(p)}]", save_replay(prop, payload))
+    v.cov["concurrent_runs_judged_at_quiescence"] = n
+    if not v.violations:
+        shutil.rmtree(work, ignore_errors=True)
+
+
 def synth_abort(note, evs, how):
     ev = {"ev": note.get("ev", "conc"), "abort": how, "input": note.get("input", {}), "kind": "abort"}
     return ev
